@@ -248,7 +248,7 @@ PURE_EXT = {
     'string.capwords': 'str', 'unicodedata.normalize': 'str', 'unicodedata.category': 'str',
     'decimal.Decimal': 'float', 'fractions.Fraction': 'float', 'itertools.chain': 'list*',
     'functools.reduce': 'top', 'sys.exc_info': 'tuple<lib>', 'sys.getrecursionlimit': 'int',
-    'types.GeneratorType': 'lib', 'warnings.warn': 'none',
+    'types.GeneratorType': 'lib',
 }
 PURE_EXT_ATTRS = {
     'datetime.timezone.utc': 'tzinfo', 'types.GeneratorType': 'lib', 'collections.abc.Hashable': 'lib',
@@ -265,6 +265,8 @@ SINK_EXT_PREFIX = {
     'operator.attrgetter': 'S-lookup', 'operator.methodcaller': 'S-dyncall', 'sys.modules': 'S-lookup',
     'sys.setprofile': 'S-import', 'sys.settrace': 'S-import', 'gc': 'S-lookup', 'socket': 'S-import',
     'code': 'S-import', 'codeop': 'S-import', 'zipimport': 'S-import', 'copyreg': 'S-lookup',
+    'warnings': 'S-import',      # showing a warning imports linecache / tokenize the first time
+
     'functools.partial': 'S-dyncall', 'types.FunctionType': 'S-dyncall', 'types.CodeType': 'S-dyncall',
     'weakref': 'S-lookup',
 }
